@@ -221,18 +221,21 @@ def generate(rng, prop, tier):
         sc['highdim'] = True
         return sc
     if mode == 'steer_sample':
-        sc['tkind'] = rng.choice(['pos', 'pos', 'sq', 'zeros', 'delta', 'sqdiff'])
+        sc['tkind'] = rng.choice(['pos', 'pos', 'sq', 'zeros', 'delta', 'sqdiff', 'gauge', 'gauge', 'orthpos'])
         sc['unsert'] = rng.choice([0.0, 0.0, UNSERT])
         if sc['tkind'] in ('sq', 'sqdiff'):
             sc['r'] = rng.randint(1, 2)
     elif mode == 'steer_square':
-        sc['tkind'] = rng.choice(['normal', 'normal', 'zeros', 'scaled'])
+        sc['tkind'] = rng.choice(['normal', 'normal', 'zeros', 'scaled', 'nearorth', 'nearorth'])
     elif mode == 'adversarial':
         sc['fn'] = rng.choice(['sample', 'sample', 'sample_square', 'sample_square_unique', 'sample_square_unique', 'sample_lhs', 'sample_lhs',
                                'sample_rand', 'sample_rand_poi', 'sample_tt', 'sample_tt', 'unique_impossible', 'sample_func'])
         sc['policy'] = rng.choice(['max', 'min', 'repeat', 'tie', 'prng', 'prng'])
         sc['m'] = rng.choice([1, 2, 3, 5, 7, 10, 16, 25])
-        sc['tkind'] = rng.choice(['pos', 'sqdiff']) if sc['fn'] == 'sample' else rng.choice(['normal', 'scaled'])
+        if sc['fn'] in ('sample_lhs', 'sample_rand', 'sample_rand_poi') and rng.random() < 0.6:
+            # all sample counts: large ones, in particular multiples of a mode size
+            sc['m'] = rng.choice(sc['n']) * rng.randint(1, 400) if rng.random() < 0.7 else rng.randint(26, 3000)
+        sc['tkind'] = rng.choice(['pos', 'sqdiff', 'gauge', 'orthpos']) if sc['fn'] == 'sample' else rng.choice(['normal', 'scaled', 'nearorth'])
         if sc['tkind'] == 'sqdiff':
             sc['r'] = 1
         sc['rtt'] = rng.randint(1, 3)
@@ -260,6 +263,32 @@ def build_tensor(sc):
     if kind == 'sq':
         Y = make_tt(n, r, sc['tseed'], dist='normal')
         return [np.einsum('aib,cid->acibd', G, G).reshape(G.shape[0] ** 2, G.shape[1], G.shape[2] ** 2) for G in Y]
+    if kind in ('gauge', 'orthpos', 'nearorth'):
+        Y = make_tt(n, r, sc['tseed'], dist='pos' if kind != 'nearorth' else 'normal')
+        if kind == 'gauge':
+            # the same non-negative tensor with mixed-sign cores: G_k <- G_k S, G_{k+1} <- S^-1 G_{k+1} (random well conditioned S, or a sign flip)
+            for k in range(len(n) - 1):
+                rr = Y[k].shape[2]
+                if g.random() < 0.5:
+                    S = np.diag(g.choice([-1.0, 1.0], rr))
+                else:
+                    S = np.linalg.qr(g.standard_normal((rr, rr)))[0] @ np.diag(g.uniform(0.5, 2.0, rr)) * g.choice([-1.0, 1.0])
+                Y[k] = np.einsum('aib,bc->aic', Y[k], S)
+                Y[k + 1] = np.einsum('ab,bic->aic', np.linalg.inv(S), Y[k + 1])
+            return Y
+        # right-orthogonalise cores d-1..1 (own QR sweep): cores get mixed signs, the tensor stays the same
+        for k in range(len(n) - 1, 0, -1):
+            r1, nk, r2 = Y[k].shape
+            Q, R = np.linalg.qr(Y[k].reshape(r1, nk * r2).T)
+            Y[k] = Q.T.reshape(-1, nk, r2)
+            Y[k - 1] = np.einsum('aib,bc->aic', Y[k - 1], R.T)
+        if kind == 'nearorth':
+            # nearly, but not exactly, orthogonal cores (e.g. stored in single precision)
+            if g.random() < 0.5:
+                Y = [G.astype(np.float32).astype(np.float64) for G in Y]
+            else:
+                Y = [G * (1.0 + 3e-7 * g.standard_normal(G.shape)) for G in Y]
+        return Y
     if kind == 'sqdiff':
         # square of X - X' where X' differs from X in one slice only: most entries are exactly zero in
         # exact arithmetic but are computed from cancelling signed terms (rounding noise of either sign)
